@@ -80,6 +80,9 @@ impl Rng {
         }
     }
     pub fn range(&mut self, lo: u64, hi_incl: u64) -> u64 {
+        if hi_incl <= lo {
+            return lo;
+        }
         lo + self.below(hi_incl - lo + 1)
     }
     /// uniform in lo..=m where m is picked uniformly from `choices`
@@ -139,5 +142,9 @@ pub fn guarded<R>(f: impl FnOnce() -> R) -> Result<R, String> {
 }
 
 pub fn quiet_panics() {
-    std::panic::set_hook(Box::new(|_| {}));
+    // caught panics of the code under test are data (logged as events); keep a short line on stderr for diagnosis
+    std::panic::set_hook(Box::new(|info| {
+        let loc = info.location().map(|l| format!("{}:{}", l.file(), l.line())).unwrap_or_default();
+        eprintln!("[panic] {}", loc);
+    }));
 }
